@@ -3,7 +3,7 @@
    cycle following (perm / inv_perm).  The body is extracted from /repo on every run; element access goes through the
    extracted private accessor Mat::entry(i,j) (0-based, pentry + i*col_ + j) and the extracted Array<Index> members.
 
-   TIER A (proof, symbolic dimension N <= 2^15, loop contracts on all 14 loops), check `invert`:
+   TIER A (proof, symbolic dimension N <= 2^15, a loop contract on each of the 14 loops):
      (a) memory safety of every access, frame: only the matrix buffer, pentry, the exception state (and the function's
          own local index vectors) are written; nothing at all when rows != cols (BadRank exactly then);
      (b) indr and indc stay PERMUTATIONS of 0..N-1 through every swap (ghost inverse arrays gv_GR, gv_GC kept in step:
@@ -17,15 +17,28 @@
      (d) Singular is raised exactly when the largest remaining element is not greater than tol (ghost verdict gv_sing,
          evaluated on the program's own pivot), no other exception;
      (e) termination: decreases clause on every loop.
+   The loop nest is too heavy for one dfcc run (measured: loops 1-4 alone 2.9 M variables / 15 M clauses, 180 s), so the
+   function is proved BY PARTS: five blocks of the same text are extracted as functions of their own (block extraction)
+       Mat_invert_step        body of `for (step...)`            check invert_step   (calls search_row, elim by contract)
+       Mat_invert_search_row  body of `for (ii...)`              check invert_search_row
+       Mat_invert_elim        body of `if (indr[row] != indr[step])`   check invert_elim
+       Mat_invert_rowswap     body of `if (i != (r = perm[i]))`  check invert_rowswap
+       Mat_invert_colswap     body of `if (j != (c = perm[j]))`  check invert_colswap
+   and under -DMI_OUTLINE the preprocessor cuts the same text out of the enclosing function between two injection points
+   pinned by the extractor and puts ONE CALL of the block function there, which dfcc replaces by the contract proved in
+   the other check (check invert for Mat_invert itself).  Without -DMI_OUTLINE the generated Mat_invert is the whole
+   function: that is what the bounded checks execute.
+
    All universally quantified facts are used quantifier-free: proved for the harness-chosen arbitrary gv_k0 / gv_j0 and
    instantiated with GV_INST (index asserted in range) at the program's own indices, always at a point where the arrays
    have not been written since the fact was proved for the arbitrary index.
 
-   TIER B (bounded, dimension <= 3 quick / 4 thorough), checks `exact_d*`: the numerical identity inv(A) A = I and
+   TIER B (bounded, dimension <= 3 quick / 4 thorough), checks exact_*: the numerical identities inv(A) A = I and
    A inv(A) = I with `==`, on inputs for which every IEEE operation of the elimination is exact (see harness).       */
 
 //@ prelude
 #include "../matvec_index/matvec_spec.h"
+#include "mi_lemmas.h"
 int gv_exc;
 struct IArray { Index *rep; Index sz; };   /* Array<Index,Index,Exc> : MemRep<Index,Index,Exc> */
 
@@ -33,19 +46,46 @@ Index gv_k0;   /* ghost: arbitrary VALUE 0..N-1 (forall-introduction) */
 Index gv_j0;   /* ghost: arbitrary POSITION 0..N-1 */
 Index gv_gi, gv_gj; /* ghost: arbitrary element of the remaining submatrix (positions in indr / indc) */
 int gv_sing;   /* ghost: verdict "the largest remaining element is not greater than tol" of the last step */
+Index gv_off;  /* ghost: offset of the element the last Mat::entry call addressed (see mi_at) */
 
 #define MI_ABS(x) ((x) >= 0 ? (x) : -(x))                 /* MatVecBase::Abs */
 #define MI_BIGGER(a, b) (MI_ABS(a) > MI_ABS(b))            /* the comparison full pivoting is defined by */
 #define REP(A) ((A)->base.mem.rep)
 #define INR(x) (0 <= (x) && (x) < N)
+#define ISZ ((long)sizeof(Index))
 
-/* array shorthands (locals of Mat_invert) */
+/* Element access of the blocks.  entry(i,j) of the repository text is lowered to *mi_at(self, i, j): the call of the
+   extracted Mat_entry (replaced by its contract in every check but `entry`) followed by an ANCHOR of the returned pointer to
+   REP(self) + gv_off, where the contract leaves in gv_off an offset in [0, sz).  The anchor asserts the equality before it
+   re-assigns it, so it cannot hide anything; it is there because (measured) symbolic execution does not terminate on a
+   WRITE through the pointer a replaced contract returns, and because the in-bounds obligation of `pentry + i*col_ + j`
+   itself is nonlinear (one such obligation: 231 s on MiniSat), whereas that of REP + gv_off with 0 <= gv_off < sz is linear. */
+Float *Mat_entry(struct Mat *self, Index i, Index j);
+static inline Float *mi_at(struct Mat *self, Index i, Index j)
+{
+  Float *p = Mat_entry(self, i, j);
+#ifndef MI_BOUNDED
+  GV_ANCHOR(p, REP(self) + gv_off);
+#endif
+  return p;
+}
+
+/* array shorthands (locals of Mat_invert / by-value parameters of the blocks: the struct is copied, the buffer shared) */
 #define aR indr.rep
 #define aC indc.rep
 #define aIR invr.rep
 #define aIC invc.rep
 #define aPM perm.rep
 #define aIP inv_perm.rep
+
+/* the matrix object as every block sees it */
+#define MI_WF(self, N)                                                                               \
+  (__CPROVER_rw_ok(self, sizeof(struct Mat)) && WF_MAT(self) && (self)->pentry == REP(self) &&       \
+   (self)->base.row_ == (N) && (self)->base.col_ == (N) && (N) > 0 && !SAME(REP(self), self))
+#define MI_IARR(a, N) ((a).sz == (N) && __CPROVER_rw_ok((a).rep, (size_t)(N) * sizeof(Index)) && OFF((a).rep) == 0)
+#define MI_GARR(p, N) (__CPROVER_rw_ok(p, (size_t)(N) * sizeof(Index)) && OFF(p) == 0)
+#define MI_DIFF3(a, b, c) (!SAME(a, b) && !SAME(a, c) && !SAME(b, c))
+#define MI_DIFF_FROM(x, a, b, c) (!SAME(x, a) && !SAME(x, b) && !SAME(x, c))
 
 /* (X, GX) are mutually inverse on 0..N-1: fact A at a value k, fact B at a position j */
 #define MI_A(X, GX, k) (INR(GX[k]) && X[GX[k]] == (k))
@@ -54,42 +94,51 @@ int gv_sing;   /* ghost: verdict "the largest remaining element is not greater t
   ((INR(gv_k0) ==> (MI_A(aR, gv_GR, gv_k0) && MI_A(aC, gv_GC, gv_k0))) &&                             \
    (INR(gv_j0) ==> (MI_B(aR, gv_GR, gv_j0) && MI_B(aC, gv_GC, gv_j0))))
 #define MI_ID(x) (aR[x] == (x) && aC[x] == (x) && gv_GR[x] == (x) && gv_GC[x] == (x))
-#define MI_PRANGE (N > 0 ==> (INR(p_row) && INR(p_col)))
+#define MI_PRANGE(PR, PC) (INR(PR) && INR(PC))
 #define MI_SUB(a, b) (step <= (a) && (a) < N && step <= (b) && (b) < N)   /* inside the remaining submatrix */
-#define MI_PIVF                                                                                      \
-  (pivot == pivot && (pivot == 0 || (MI_SUB(p_row, p_col) && pivot == REP(self)[aR[p_row] * N + aC[p_col]])))
+#define MI_PIVF(PV, PR, PC)                                                                          \
+  ((PV) == (PV) && ((PV) == 0 || (MI_SUB(PR, PC) && (PV) == REP(self)[aR[PR] * self->base.col_ + aC[PC]])))
+/* the ghost element as the search of this step sees it */
+#define MI_GVAL_OK                                                                                   \
+  (MI_SUB(gv_gi, gv_gj) ==> (INR(aR[gv_gi]) && INR(aC[gv_gj]) && MV_SAMEVAL(gv_gval, REP(self)[aR[gv_gi] * self->base.col_ + aC[gv_gj]])))
+
+/* cycle-following undo: at loop position v the not yet placed positions / values v..N-1 */
+#define MI_U(v, a, b)                                                                                \
+  ((((v) <= (a) && (a) < N) ==> ((v) <= aPM[a] && aPM[a] < N && aIP[aPM[a]] == (a))) &&               \
+   (((v) <= (b) && (b) < N) ==> ((v) <= aIP[b] && aIP[b] < N && aPM[aIP[b]] == (b))))
+#define MI_UNDO_INV(v) (0 <= (v) && (v) <= N && MI_U(v, gv_j0, gv_k0))
+/* loop contract of "perm[i] = X[IY[i]]; inv_perm[perm[i]] = i"  */
+#define MI_PERM_INV(X, GX, Y)                                                                        \
+  (0 <= i && i <= N &&                                                                               \
+   ((0 <= gv_j0 && gv_j0 < i) ==> (INR(aPM[gv_j0]) && aIP[aPM[gv_j0]] == gv_j0)) &&                   \
+   ((INR(gv_k0) && Y[GX[gv_k0]] < i) ==> (aPM[Y[GX[gv_k0]]] == gv_k0 && aIP[gv_k0] == Y[GX[gv_k0]])))
 
 #ifndef MI_BOUNDED
 /* ---- proof text (tier A); empty in the bounded checks so that no proof hint can prune a bounded path ------------ */
-#define MI_GHOST_ARRAYS                                                     \
-  Index *gv_GR = GV_NEW(Index, N);                                         \
-  Index *gv_GC = GV_NEW(Index, N);                                         \
-  Float gv_gval = 0; /* ghost: the element (gv_gi, gv_gj) as the search of this step sees it */
+#define MI_GHOST_ARRAYS Index *gv_GR = GV_NEW(Index, N); Index *gv_GC = GV_NEW(Index, N);
 #define MI_TAIL1 gv_GR[l] = l; gv_GC[l] = l;
 /* before the search of a step: snapshot of the ghost element */
 #define MI_PRE_SEARCH                                                                                \
   if (MI_SUB(gv_gi, gv_gj)) {                                                                        \
     GV_INST(INR(gv_gi), MI_B(aR, gv_GR, gv_gi));                                                     \
     GV_INST(INR(gv_gj), MI_B(aC, gv_GC, gv_gj));                                                     \
-    gv_gval = *Mat_entry(self, aR[gv_gi], aC[gv_gj]);                                                \
+    gv_gval = *mi_at(self, aR[gv_gi], aC[gv_gj]);                                                \
   }
 #define MI_HEAD_II GV_INST(INR(ii), MI_B(aR, gv_GR, ii));
-#define MI_HEAD_JJ GV_INST(INR(jj), MI_B(aC, gv_GC, jj));
-#define MI_POST_SEARCH                                                                               \
-  __CPROVER_assert(MI_PIVF, "the pivot is 0 or the element (indr[p_row], indc[p_col]) of the remaining submatrix");   \
-  __CPROVER_assert(MI_SUB(gv_gi, gv_gj) ==> !MI_BIGGER(gv_gval, pivot),                              \
+#define MI_HEAD_JJ GV_INST(INR(jj), INR(aC[jj]));
+#define MI_POST_SEARCH(PV, PR, PC)                                                                   \
+  __CPROVER_assert(MI_PIVF(PV, PR, PC), "the pivot is 0 or the element (indr[p_row], indc[p_col]) of the remaining submatrix"); \
+  __CPROVER_assert(MI_SUB(gv_gi, gv_gj) ==> !MI_BIGGER(gv_gval, PV),                                 \
                    "full pivoting: no element of the remaining submatrix is larger in absolute value than the pivot"); \
-  gv_sing = (MI_ABS(pivot) <= tol);
-#define MI_BEFORE_SWAPS                                                                              \
+  gv_sing = (MI_ABS(PV) <= tol);
+#define MI_BEFORE_SWAPS(PR, PC)                                                                      \
   __CPROVER_assert(!gv_sing, "a largest remaining element not greater than tol raises Singular");    \
-  if (N > 0) {                                                                                       \
-    GV_INST(INR(step), MI_B(aR, gv_GR, step) && MI_B(aC, gv_GC, step));                              \
-    GV_INST(INR(p_row), MI_B(aR, gv_GR, p_row));                                                     \
-    GV_INST(INR(p_col), MI_B(aC, gv_GC, p_col));                                                     \
-  }
-#define MI_AFTER_SWAPS                                                                               \
-  gv_GR[aR[step]] = step; gv_GR[aR[p_row]] = p_row;                                                  \
-  gv_GC[aC[step]] = step; gv_GC[aC[p_col]] = p_col;                                                  \
+  GV_INST(INR(step), MI_B(aR, gv_GR, step) && MI_B(aC, gv_GC, step));                                \
+  GV_INST(INR(PR), MI_B(aR, gv_GR, PR));                                                             \
+  GV_INST(INR(PC), MI_B(aC, gv_GC, PC));
+#define MI_AFTER_SWAPS(PR, PC)                                                                       \
+  gv_GR[aR[step]] = step; gv_GR[aR[PR]] = PR;                                                        \
+  gv_GC[aC[step]] = step; gv_GC[aC[PC]] = PC;                                                        \
   __CPROVER_assert(MI_PERMS, "indr and indc are permutations of 0..N-1 after the pivot swaps");      \
   GV_INST(INR(step), MI_B(aR, gv_GR, step) && MI_B(aC, gv_GC, step));
 #define MI_HEAD_ROW GV_INST(INR(row), MI_B(aR, gv_GR, row));
@@ -110,34 +159,22 @@ int gv_sing;   /* ghost: verdict "the largest remaining element is not greater t
   }
 #define MI_PRE_UNDO(X, GX, Y, GY) if (INR(gv_k0)) { GV_INST(INR(GX[gv_k0]), MI_B(Y, GY, GX[gv_k0])); }
 /* cycle following: instantiate the loop invariant (which holds for the arbitrary gv_j0, gv_k0) at j0 := k0 := v */
-#define MI_HEAD_UNDO(v)                                                                              \
-  GV_INST(INR(v), (v) <= aPM[v] && aPM[v] < N && aIP[aPM[v]] == (v) && (v) <= aIP[v] && aIP[v] < N && aPM[aIP[v]] == (v));
+#define MI_HEAD_UNDO(v) GV_INST(INR(v), MI_U(v, v, v));
 #else
 #define MI_GHOST_ARRAYS
 #define MI_TAIL1
 #define MI_PRE_SEARCH
 #define MI_HEAD_II
 #define MI_HEAD_JJ
-#define MI_POST_SEARCH
-#define MI_BEFORE_SWAPS
-#define MI_AFTER_SWAPS
+#define MI_POST_SEARCH(PV, PR, PC)
+#define MI_BEFORE_SWAPS(PR, PC)
+#define MI_AFTER_SWAPS(PR, PC)
 #define MI_HEAD_ROW
 #define MI_HEAD_INV
 #define MI_HEAD_PERM(X, GX, IY, Y, GY)
 #define MI_PRE_UNDO(X, GX, Y, GY)
 #define MI_HEAD_UNDO(v)
 #endif
-
-/* loop contract of "perm[i] = X[IY[i]]; inv_perm[perm[i]] = i"  */
-#define MI_PERM_INV(X, GX, Y)                                                                        \
-  (0 <= i && i <= N &&                                                                               \
-   ((0 <= gv_j0 && gv_j0 < i) ==> (INR(aPM[gv_j0]) && aIP[aPM[gv_j0]] == gv_j0)) &&                   \
-   ((INR(gv_k0) && Y[GX[gv_k0]] < i) ==> (aPM[Y[GX[gv_k0]]] == gv_k0 && aIP[gv_k0] == Y[GX[gv_k0]])))
-/* loop contract of the cycle-following undo with loop variable v */
-#define MI_UNDO_INV(v)                                                                               \
-  (0 <= (v) && (v) <= N &&                                                                           \
-   (((v) <= gv_j0 && gv_j0 < N) ==> ((v) <= aPM[gv_j0] && aPM[gv_j0] < N && aIP[aPM[gv_j0]] == gv_j0)) && \
-   (((v) <= gv_k0 && gv_k0 < N) ==> ((v) <= aIP[gv_k0] && aIP[gv_k0] < N && aPM[aIP[gv_k0]] == gv_k0)))
 //@ end
 
 /* ---- small accessors -------------------------------------------------------------------------------------------- */
@@ -149,23 +186,23 @@ MV_CONTRACT_MatBase_rows
 MV_CONTRACT_MatBase_cols
 //@ end
 
-/* Mat::entry(i,j), 0-based: pentry + i*col_ + j lies inside the buffer (nonlinear bound: lemma mat_bounds at (i+1,j+1)) */
+/* Mat::entry(i,j), 0-based: pentry + i*col_ + j lies inside the buffer (nonlinear bound: mi_lemma_entry_bounds, proved by z3) */
 //@ contract Mat_entry
 __CPROVER_requires(WF_MAT(self) && self->pentry == REP(self))
 __CPROVER_requires(0 <= i && i < self->base.row_ && 0 <= j && j < self->base.col_)
-__CPROVER_assigns()
-__CPROVER_ensures(__CPROVER_return_value == REP(self) + (i * self->base.col_ + j))
-__CPROVER_ensures(0 <= i * self->base.col_ + j && i * self->base.col_ + j < self->base.mem.sz)
+__CPROVER_assigns(gv_off)
+__CPROVER_ensures(__CPROVER_return_value == REP(self) + gv_off && gv_off == i * self->base.col_ + j)
+__CPROVER_ensures(0 <= gv_off && gv_off < self->base.mem.sz)
 //@ entry Mat_entry
 GV_CANARY("Mat_entry entry");
-GV_GHOST(gv_lemma_mat_bounds(self->base.row_, self->base.col_, i + 1, j + 1);)
+GV_GHOST(mi_lemma_entry_bounds(self->base.row_, self->base.col_, i, j); gv_off = i * self->base.col_ + j;) /* row-major, 0-based */
 //@ end
 
-/* ---- Mat::invert --------------------------------------------------------------------------------------------------- */
+/* ---- Mat::invert (enclosing function; the step body and the two swap blocks are outlined in the proof check) ------ */
 //@ contract Mat_invert
 __CPROVER_requires(WF_MAT(self) && __CPROVER_rw_ok(self, sizeof(struct Mat)) && gv_exc == 0)
 __CPROVER_requires(!SAME(REP(self), self))
-__CPROVER_assigns(gv_exc, gv_sing;
+__CPROVER_assigns(gv_off, gv_exc, gv_sing;
                   self->base.row_ == self->base.col_: self->pentry;
                   self->base.row_ == self->base.col_: __CPROVER_object_whole(REP(self)))
 __CPROVER_ensures((self->base.row_ != self->base.col_) == (gv_exc == GV_BadRank))
@@ -185,47 +222,19 @@ __CPROVER_decreases(N - l)
 //@ tail Mat_invert 1
 MI_TAIL1
 //@ loop Mat_invert 2
-__CPROVER_assigns(step, ii, jj, i, j, row, e, pivot, invpivot, p_row, p_col, gv_exc, gv_sing, gv_gval;
+__CPROVER_assigns(gv_off, step, p_row, p_col, gv_exc, gv_sing;
                   N > 0: __CPROVER_object_whole(aR); N > 0: __CPROVER_object_whole(aC);
                   __CPROVER_object_whole(gv_GR), __CPROVER_object_whole(gv_GC), __CPROVER_object_whole(REP(self)))
-__CPROVER_loop_invariant(0 <= step && step <= N && gv_exc == 0 && gv_sing == 0 && MI_PRANGE && MI_PERMS)
+__CPROVER_loop_invariant(0 <= step && step <= N && gv_exc == 0 && gv_sing == 0 &&
+                         (N > 0 ==> MI_PRANGE(p_row, p_col)) && MI_PERMS)
 __CPROVER_decreases(N - step)
-//@ pre Mat_invert 3
-MI_PRE_SEARCH
-//@ loop Mat_invert 3
-__CPROVER_assigns(ii, jj, i, e, pivot, p_row, p_col)
-__CPROVER_loop_invariant(step <= ii && ii <= N && MI_PRANGE && MI_PIVF &&
-                         ((MI_SUB(gv_gi, gv_gj) && gv_gi < ii) ==> !MI_BIGGER(gv_gval, pivot)))
-__CPROVER_decreases(N - ii)
-//@ head Mat_invert 3
-MI_HEAD_II
-//@ loop Mat_invert 4
-__CPROVER_assigns(jj, e, pivot, p_row, p_col)
-__CPROVER_loop_invariant(step <= jj && jj <= N && MI_PRANGE && MI_PIVF &&
-                         ((MI_SUB(gv_gi, gv_gj) && (gv_gi < ii || (gv_gi == ii && gv_gj < jj))) ==> !MI_BIGGER(gv_gval, pivot)))
-__CPROVER_decreases(N - jj)
-//@ head Mat_invert 4
-MI_HEAD_JJ
-//@ post Mat_invert 3
-MI_POST_SEARCH
-//@ at Mat_invert before_swaps
-MI_BEFORE_SWAPS
-//@ at Mat_invert after_swaps
-MI_AFTER_SWAPS
-//@ loop Mat_invert 5
-__CPROVER_assigns(j, __CPROVER_object_whole(REP(self)))
-__CPROVER_loop_invariant(0 <= j && j <= N)
-__CPROVER_decreases(N - j)
-//@ loop Mat_invert 6
-__CPROVER_assigns(row, i, e, j, __CPROVER_object_whole(REP(self)))
-__CPROVER_loop_invariant(0 <= row && row <= N)
-__CPROVER_decreases(N - row)
-//@ head Mat_invert 6
-MI_HEAD_ROW
-//@ loop Mat_invert 7
-__CPROVER_assigns(j, __CPROVER_object_whole(REP(self)))
-__CPROVER_loop_invariant(0 <= j && j <= N)
-__CPROVER_decreases(N - j)
+//@ at Mat_invert step_begin
+#ifdef MI_OUTLINE
+Mat_invert_step(self, N, step, tol, indr, indc, &p_row, &p_col, gv_GR, gv_GC);
+if (gv_exc) return;
+#else
+//@ at Mat_invert step_end
+#endif
 //@ loop Mat_invert 8
 __CPROVER_assigns(i; N > 0: __CPROVER_object_whole(aIR); N > 0: __CPROVER_object_whole(aIC))
 __CPROVER_loop_invariant(0 <= i && i <= N &&
@@ -243,16 +252,18 @@ MI_HEAD_PERM(aR, gv_GR, aIC, aC, gv_GC)
 //@ pre Mat_invert 10
 MI_PRE_UNDO(aR, gv_GR, aC, gv_GC)
 //@ loop Mat_invert 10
-__CPROVER_assigns(i, r, j, e; N > 0: __CPROVER_object_whole(aPM); N > 0: __CPROVER_object_whole(aIP);
+__CPROVER_assigns(gv_off, i, r; N > 0: __CPROVER_object_whole(aPM); N > 0: __CPROVER_object_whole(aIP);
                   __CPROVER_object_whole(REP(self)))
 __CPROVER_loop_invariant(MI_UNDO_INV(i))
 __CPROVER_decreases(N - i)
 //@ head Mat_invert 10
 MI_HEAD_UNDO(i)
-//@ loop Mat_invert 11
-__CPROVER_assigns(j, e, __CPROVER_object_whole(REP(self)))
-__CPROVER_loop_invariant(0 <= j && j <= N)
-__CPROVER_decreases(N - j)
+//@ pre Mat_invert 11
+#ifdef MI_OUTLINE
+Mat_invert_rowswap(self, N, i, r, perm, inv_perm);
+#else
+//@ at Mat_invert rowswap_end
+#endif
 //@ loop Mat_invert 12
 __CPROVER_assigns(i; N > 0: __CPROVER_object_whole(aPM); N > 0: __CPROVER_object_whole(aIP))
 __CPROVER_loop_invariant(MI_PERM_INV(aC, gv_GC, aR))
@@ -262,24 +273,160 @@ MI_HEAD_PERM(aC, gv_GC, aIR, aR, gv_GR)
 //@ pre Mat_invert 13
 MI_PRE_UNDO(aC, gv_GC, aR, gv_GR)
 //@ loop Mat_invert 13
-__CPROVER_assigns(j, c, i, e; N > 0: __CPROVER_object_whole(aPM); N > 0: __CPROVER_object_whole(aIP);
+__CPROVER_assigns(gv_off, j, c; N > 0: __CPROVER_object_whole(aPM); N > 0: __CPROVER_object_whole(aIP);
                   __CPROVER_object_whole(REP(self)))
 __CPROVER_loop_invariant(MI_UNDO_INV(j))
 __CPROVER_decreases(N - j)
 //@ head Mat_invert 13
 MI_HEAD_UNDO(j)
-//@ loop Mat_invert 14
-__CPROVER_assigns(i, e, __CPROVER_object_whole(REP(self)))
+//@ pre Mat_invert 14
+#ifdef MI_OUTLINE
+Mat_invert_colswap(self, N, j, c, perm, inv_perm);
+#else
+//@ at Mat_invert colswap_end
+#endif
+//@ end
+
+/* ---- one elimination step: body of `for (step=0; step<N; step++)` ----------------------------------------------------
+   indr, indc are permutations before and after (ghost inverses updated with the swaps); the pivot found is a largest
+   element of the remaining submatrix; Singular exactly when it is not greater than tol, and then nothing more is done. */
+//@ contract Mat_invert_step
+__CPROVER_requires(MI_WF(self, N) && 0 <= step && step < N && gv_exc == 0 && gv_sing == 0)
+__CPROVER_requires(MI_IARR(indr, N) && MI_IARR(indc, N) && MI_GARR(gv_GR, N) && MI_GARR(gv_GC, N))
+__CPROVER_requires(__CPROVER_rw_ok(p_row__p, sizeof(Index)) && __CPROVER_rw_ok(p_col__p, sizeof(Index)) && !SAME(p_row__p, p_col__p))
+__CPROVER_requires(MI_DIFF3(aR, aC, gv_GR) && MI_DIFF_FROM(gv_GC, aR, aC, gv_GR) && MI_DIFF_FROM(REP(self), aR, aC, gv_GR) &&
+                   !SAME(REP(self), gv_GC) && MI_DIFF_FROM(self, aR, aC, gv_GR) && !SAME(self, gv_GC))
+__CPROVER_requires(MI_DIFF_FROM(p_row__p, aR, aC, gv_GR) && MI_DIFF_FROM(p_row__p, gv_GC, REP(self), self) &&
+                   MI_DIFF_FROM(p_col__p, aR, aC, gv_GR) && MI_DIFF_FROM(p_col__p, gv_GC, REP(self), self))
+__CPROVER_requires(MI_PRANGE(*p_row__p, *p_col__p) && MI_PERMS)
+__CPROVER_assigns(gv_off, *p_row__p, *p_col__p, gv_exc, gv_sing, __CPROVER_object_whole(aR), __CPROVER_object_whole(aC),
+                  __CPROVER_object_whole(gv_GR), __CPROVER_object_whole(gv_GC), __CPROVER_object_whole(REP(self)))
+__CPROVER_ensures(gv_exc == 0 || gv_exc == GV_Singular)
+__CPROVER_ensures((gv_exc == GV_Singular) == (gv_sing != 0))
+__CPROVER_ensures(gv_exc == 0 ==> (MI_PRANGE(*p_row__p, *p_col__p) && MI_PERMS))
+//@ entry Mat_invert_step
+GV_CANARY("Mat_invert_step entry");
+Float pivot, invpivot, e;
+Index ii, jj, i, j, row;
+Float gv_gval = 0; /* ghost: the element (gv_gi, gv_gj) as the search of this step sees it */
+//@ pre Mat_invert_step 1
+MI_PRE_SEARCH
+//@ loop Mat_invert_step 1
+__CPROVER_assigns(gv_off, ii, pivot, *p_row__p, *p_col__p)
+__CPROVER_loop_invariant(step <= ii && ii <= N && MI_PRANGE(*p_row__p, *p_col__p) && MI_PIVF(pivot, *p_row__p, *p_col__p) &&
+                         ((MI_SUB(gv_gi, gv_gj) && gv_gi < ii) ==> !MI_BIGGER(gv_gval, pivot)))
+__CPROVER_decreases(N - ii)
+//@ head Mat_invert_step 1
+MI_HEAD_II
+//@ at Mat_invert_step srow_begin
+#ifdef MI_OUTLINE
+Mat_invert_search_row(self, N, step, ii, indr, indc, &pivot, p_row__p, p_col__p, gv_gval);
+#else
+//@ at Mat_invert_step srow_end
+#endif
+//@ post Mat_invert_step 1
+MI_POST_SEARCH(pivot, *p_row__p, *p_col__p)
+//@ at Mat_invert_step before_swaps
+MI_BEFORE_SWAPS(*p_row__p, *p_col__p)
+//@ at Mat_invert_step after_swaps
+MI_AFTER_SWAPS(*p_row__p, *p_col__p)
+//@ loop Mat_invert_step 3
+__CPROVER_assigns(gv_off, j, __CPROVER_object_whole(REP(self)))
+__CPROVER_loop_invariant(0 <= j && j <= N)
+__CPROVER_decreases(N - j)
+//@ loop Mat_invert_step 4
+__CPROVER_assigns(gv_off, row, __CPROVER_object_whole(REP(self)))
+__CPROVER_loop_invariant(0 <= row && row <= N)
+__CPROVER_decreases(N - row)
+//@ head Mat_invert_step 4
+MI_HEAD_ROW
+//@ at Mat_invert_step elim_begin
+#ifdef MI_OUTLINE
+Mat_invert_elim(self, N, step, row, indr, indc);
+#else
+//@ at Mat_invert_step elim_end
+#endif
+//@ end
+
+/* ---- one row of the pivot search: body of `for (ii=step; ii<N; ii++)` ------------------------------------------------ */
+//@ contract Mat_invert_search_row
+__CPROVER_requires(MI_WF(self, N) && 0 <= step && step <= ii && ii < N && MI_IARR(indr, N) && MI_IARR(indc, N))
+__CPROVER_requires(__CPROVER_rw_ok(pivot__p, sizeof(Float)) && __CPROVER_rw_ok(p_row__p, sizeof(Index)) && __CPROVER_rw_ok(p_col__p, sizeof(Index)))
+__CPROVER_requires(MI_DIFF3(pivot__p, p_row__p, p_col__p) && MI_DIFF_FROM(aR, pivot__p, p_row__p, p_col__p) &&
+                   MI_DIFF_FROM(aC, pivot__p, p_row__p, p_col__p) && MI_DIFF_FROM(REP(self), pivot__p, p_row__p, p_col__p) &&
+                   MI_DIFF_FROM(self, pivot__p, p_row__p, p_col__p))
+__CPROVER_requires(INR(aR[ii]) && (INR(gv_j0) ==> INR(aC[gv_j0])))
+__CPROVER_requires(MI_PRANGE(*p_row__p, *p_col__p) && MI_PIVF(*pivot__p, *p_row__p, *p_col__p) && MI_GVAL_OK)
+__CPROVER_requires((MI_SUB(gv_gi, gv_gj) && gv_gi < ii) ==> !MI_BIGGER(gv_gval, *pivot__p))
+__CPROVER_assigns(gv_off, *pivot__p, *p_row__p, *p_col__p)
+__CPROVER_ensures(MI_PRANGE(*p_row__p, *p_col__p) && MI_PIVF(*pivot__p, *p_row__p, *p_col__p))
+__CPROVER_ensures((MI_SUB(gv_gi, gv_gj) && gv_gi < ii + 1) ==> !MI_BIGGER(gv_gval, *pivot__p))
+//@ entry Mat_invert_search_row
+GV_CANARY("Mat_invert_search_row entry");
+Index i, jj;
+Float e;
+//@ loop Mat_invert_search_row 1
+__CPROVER_assigns(gv_off, jj, e, *pivot__p, *p_row__p, *p_col__p)
+__CPROVER_loop_invariant(step <= jj && jj <= N && MI_PRANGE(*p_row__p, *p_col__p) && MI_PIVF(*pivot__p, *p_row__p, *p_col__p) &&
+                         ((MI_SUB(gv_gi, gv_gj) && (gv_gi < ii || (gv_gi == ii && gv_gj < jj))) ==> !MI_BIGGER(gv_gval, *pivot__p)))
+__CPROVER_decreases(N - jj)
+//@ head Mat_invert_search_row 1
+MI_HEAD_JJ
+//@ end
+
+/* ---- elimination of one row: body of `if (indr[row] != indr[step])` -------------------------------------------------- */
+//@ contract Mat_invert_elim
+__CPROVER_requires(MI_WF(self, N) && 0 <= step && step < N && 0 <= row && row < N && MI_IARR(indr, N) && MI_IARR(indc, N))
+__CPROVER_requires(MI_DIFF3(aR, aC, REP(self)) && MI_DIFF_FROM(self, aR, aC, REP(self)))
+__CPROVER_requires(INR(aR[row]) && INR(aR[step]) && INR(aC[step]))
+__CPROVER_assigns(gv_off, __CPROVER_object_whole(REP(self)))
+//@ entry Mat_invert_elim
+GV_CANARY("Mat_invert_elim entry");
+Index i, j;
+Float e;
+//@ loop Mat_invert_elim 1
+__CPROVER_assigns(gv_off, j, __CPROVER_object_whole(REP(self)))
+__CPROVER_loop_invariant(0 <= j && j <= N)
+__CPROVER_decreases(N - j)
+//@ end
+
+/* ---- undo, one cycle step: bodies of `if (i != (r = perm[i]))` and `if (j != (c = perm[j]))` -------------------------
+   Before: perm maps the unplaced positions v..N-1 one-to-one onto v..N-1 and inv_perm is its inverse there (stated for the
+   arbitrary position gv_j0 and value gv_k0, and at v itself).  After: the same for v+1..N-1. */
+//@ contract Mat_invert_rowswap
+__CPROVER_requires(MI_WF(self, N) && MI_IARR(perm, N) && MI_IARR(inv_perm, N))
+__CPROVER_requires(MI_DIFF3(aPM, aIP, REP(self)) && MI_DIFF_FROM(self, aPM, aIP, REP(self)))
+__CPROVER_requires(0 <= i && i < N && r == aPM[i] && r != i && MI_U(i, gv_j0, gv_k0) && MI_U(i, i, i))
+__CPROVER_assigns(gv_off, __CPROVER_object_whole(aPM), __CPROVER_object_whole(aIP), __CPROVER_object_whole(REP(self)))
+__CPROVER_ensures(MI_U(i + 1, gv_j0, gv_k0))
+//@ entry Mat_invert_rowswap
+GV_CANARY("Mat_invert_rowswap entry");
+Index j;
+Float e;
+//@ loop Mat_invert_rowswap 1
+__CPROVER_assigns(gv_off, j, e, __CPROVER_object_whole(REP(self)))
+__CPROVER_loop_invariant(0 <= j && j <= N)
+__CPROVER_decreases(N - j)
+//@ contract Mat_invert_colswap
+__CPROVER_requires(MI_WF(self, N) && MI_IARR(perm, N) && MI_IARR(inv_perm, N))
+__CPROVER_requires(MI_DIFF3(aPM, aIP, REP(self)) && MI_DIFF_FROM(self, aPM, aIP, REP(self)))
+__CPROVER_requires(0 <= j && j < N && c == aPM[j] && c != j && MI_U(j, gv_j0, gv_k0) && MI_U(j, j, j))
+__CPROVER_assigns(gv_off, __CPROVER_object_whole(aPM), __CPROVER_object_whole(aIP), __CPROVER_object_whole(REP(self)))
+__CPROVER_ensures(MI_U(j + 1, gv_j0, gv_k0))
+//@ entry Mat_invert_colswap
+GV_CANARY("Mat_invert_colswap entry");
+Index i;
+Float e;
+//@ loop Mat_invert_colswap 1
+__CPROVER_assigns(gv_off, i, e, __CPROVER_object_whole(REP(self)))
 __CPROVER_loop_invariant(0 <= i && i <= N)
 __CPROVER_decreases(N - i)
 //@ end
 
 //@ harness
 /* an arbitrary Mat(r,c), r,c <= 2^15, arbitrary contents (NaN, infinities, zeros included) */
-static void mk_mat(struct Mat *A)
+static void mk_mat(struct Mat *A, Index rows, Index cols)
 {
-  Index rows, cols;
-  __CPROVER_assume(0 <= rows && rows <= MAXD && 0 <= cols && cols <= MAXD);
   A->base.row_ = rows;
   A->base.col_ = cols;
   Index sz = rows * cols;
@@ -288,11 +435,30 @@ static void mk_mat(struct Mat *A)
   __CPROVER_assume(m != NULL);
   A->base.mem.rep = m;
 }
+/* an index vector of N arbitrary entries (the contract under proof says what is required of them) */
+static struct IArray mk_iarr(Index N)
+{
+  struct IArray a;
+  Index *m = malloc((size_t)N * sizeof(Index));
+  __CPROVER_assume(m != NULL);
+  a.rep = m;
+  a.sz = N;
+  return a;
+}
+static void mk_ghost_indices(void)
+{
+  Index k0, j0, gi, gj;
+  gv_k0 = k0; gv_j0 = j0; gv_gi = gi; gv_gj = gj;
+  gv_exc = 0;
+  gv_sing = 0;
+}
 
 void h_entry(void)
 {
   struct Mat A;
-  mk_mat(&A);
+  Index rows, cols;
+  __CPROVER_assume(0 <= rows && rows <= MAXD && 0 <= cols && cols <= MAXD);
+  mk_mat(&A, rows, cols);
   A.pentry = A.base.mem.rep;
   Index i, j;
   __CPROVER_assume(0 <= i && i < A.base.row_ && 0 <= j && j < A.base.col_);
@@ -302,17 +468,79 @@ void h_entry(void)
   GV_CANARY("h_entry end");
 }
 
+#ifdef MI_OUTLINE
 void h_invert(void)
 {
   struct Mat A;
-  mk_mat(&A);
+  Index rows, cols;
+  __CPROVER_assume(0 <= rows && rows <= MAXD && 0 <= cols && cols <= MAXD);
+  mk_mat(&A, rows, cols);
   Float *anyp;
-  A.pentry = anyp; /* "not initialized in constructor !!!" (mat.h): arbitrary on entry */
+  A.pentry = anyp; /* arbitrary on entry: invert() sets it */
   Float tol;
-  Index k0, j0, gi, gj;
-  gv_k0 = k0; gv_j0 = j0; gv_gi = gi; gv_gj = gj;
-  gv_exc = 0;
+  mk_ghost_indices();
   Mat_invert(&A, tol);
   GV_CANARY("h_invert end");
 }
+
+/* the blocks: every precondition of the block contract that is not a shape built here is left to the contract
+   (dfcc assumes the requires clauses of the enforced function) */
+void h_step(void)
+{
+  struct Mat A;
+  Index N, step, p_row, p_col;
+  __CPROVER_assume(0 < N && N <= MAXD);
+  mk_mat(&A, N, N);
+  A.pentry = A.base.mem.rep;
+  struct IArray indr = mk_iarr(N), indc = mk_iarr(N), GR = mk_iarr(N), GC = mk_iarr(N);
+  Float tol;
+  mk_ghost_indices();
+  Mat_invert_step(&A, N, step, tol, indr, indc, &p_row, &p_col, GR.rep, GC.rep);
+  GV_CANARY("h_step end");
+}
+
+void h_search_row(void)
+{
+  struct Mat A;
+  Index N, step, ii, p_row, p_col;
+  __CPROVER_assume(0 < N && N <= MAXD);
+  mk_mat(&A, N, N);
+  A.pentry = A.base.mem.rep;
+  struct IArray indr = mk_iarr(N), indc = mk_iarr(N);
+  Float pivot, gval;
+  mk_ghost_indices();
+  Mat_invert_search_row(&A, N, step, ii, indr, indc, &pivot, &p_row, &p_col, gval);
+  GV_CANARY("h_search_row end");
+}
+
+void h_elim(void)
+{
+  struct Mat A;
+  Index N, step, row;
+  __CPROVER_assume(0 < N && N <= MAXD);
+  mk_mat(&A, N, N);
+  A.pentry = A.base.mem.rep;
+  struct IArray indr = mk_iarr(N), indc = mk_iarr(N);
+  mk_ghost_indices();
+  Mat_invert_elim(&A, N, step, row, indr, indc);
+  GV_CANARY("h_elim end");
+}
+
+void h_swap(void)
+{
+  struct Mat A;
+  Index N, v, w;
+  __CPROVER_assume(0 < N && N <= MAXD);
+  mk_mat(&A, N, N);
+  A.pentry = A.base.mem.rep;
+  struct IArray perm = mk_iarr(N), inv_perm = mk_iarr(N);
+  mk_ghost_indices();
+#if MI_WHICH == 0
+  Mat_invert_rowswap(&A, N, v, w, perm, inv_perm);
+#else
+  Mat_invert_colswap(&A, N, v, w, perm, inv_perm);
+#endif
+  GV_CANARY("h_swap end");
+}
+#endif
 //@ end
